@@ -1702,8 +1702,49 @@ def slice_C15(ctx):
         if got != expected:
             violations.append(viol(c, expected, got, "replace_all differs from the replacement grammar applied to the code's own matches and groups",
                                    None, same))
+    # "a group that did not participate contributes nothing": here the groups come from the
+    # specification's selected path, not from the code's own analyze output - alternatives that match
+    # and are abandoned, groups under reluctant quantifiers left out of the reported match
+    tuples2 = []
+    for d, fl, pat, inp, rp in capalt_stream(ctx, ctx.n(600, 6000)) + staleend_stream(ctx, ctx.n(300, 3000)) + relgroup_stream(ctx, ctx.n(600, 6000)):
+        tuples2.append((d, fl, pat, inp, rp, "participation"))
+    cases2 = mk_cases(tuples2, "ra")
+    for c in cases2:
+        c.cid = "p" + str(c.cid)
+    code2, model2, dis2 = run_slice(cases2)
+    spec2 = spec_match(cases2)
+    for c in cases2:
+        s_, r_ = spec2.get(c.cid, {}), code2.get(c.cid, {})
+        if s_.get("V") != "valid" or r_.get("C") != "ok" or s_.get("bok") != "1" or s_.get("nullable") != "0" or s_.get("strict") != "1":
+            continue
+        # the spans too are the specification's: a change that corrupts the captures may corrupt what
+        # analyze reports as well
+        sspans, sgroups = spec_spans(s_.get("SP", ""))
+        spans = sspans
+        if not spans:
+            continue
+        ng = len(parent_map(c.pattern))
+        exp, pos = "", 0
+        for k, (i, j) in enumerate(spans):
+            exp += c.input[pos:i]
+            txts = []
+            for gi in range(1, c.repl.count("$") + 1):
+                g = sgroups[k][gi - 1] if (gi <= ng and gi - 1 < len(sgroups[k])) else "~"
+                txts.append("" if g == "~" else c.input[int(g.split("-")[0]):int(g.split("-")[1])])
+            # $N with N above the group count: a single digit is read, the group does not exist
+            exp += "[" + "|".join(txts) + "]"
+            pos = j
+        exp += c.input[pos:]
+        nontrivial.add(c.key())
+        hist["participation"] += 1
+        if r_.get("R") != "ok:" + tie.enc(exp):
+            violations.append(viol(c, "ok:" + tie.enc(exp), r_.get("R"),
+                                   "$N gives the text of a group that did not take part in the match (or not the text it captured on the selected path)",
+                                   s_, same_as_model(code2, model2, c.cid)))
+    cases = cases + cases2
+    dis = dis + dis2
     return result(ctx, cases, dis, violations, nontrivial,
-                  "all replacement strings up to length %d over {$,\\,0,1,2,9,a} plus a seeded random stream, x 10 patterns with 0..12 groups x 7 inputs (0/1/2+ matches); non-trivial = distinct (pattern,input,replacement) with at least one match" % ctx.n(3, 4),
+                  "all replacement strings up to length %d over {$,\\,0,1,2,9,a} plus a seeded random stream, x 10 patterns with 0..12 groups x 7 inputs (0/1/2+ matches); alternations of capturing groups / groups under reluctant quantifiers / groups completed on an abandoned path with the replacement [$1|$2|$3] against the specification's selected path; non-trivial = distinct (pattern,input,replacement) with at least one match" % ctx.n(3, 4),
                   {"distribution": dict(hist), "exhaustive": False})
 
 
